@@ -48,7 +48,8 @@ def _run_case(spec):
     first = bool((spec['member'].get('seed', 0) + spec['order'] // 2) % 2)
     for g in grids:
         ex, rel = c04.evaluate(spec2, g, [], rel_kw=dict(vacuum=bool(spec['vacuum'])))
-        code = engine.eval_keys(rel, (ALG + KEYS[:-1]) if first else (KEYS[:-1] + ALG))
+        # (uup4 is asked first in both arms: nothing has assembled betaup3 yet)
+        code = engine.eval_keys(rel, (ALG + KEYS[:-1]) if first else (ALG[:1] + KEYS[:-1] + ALG[1:]))
         a = code['accelerationdown4']
         if isinstance(a, Exception):
             code['acc_dot_n'] = a
